@@ -82,6 +82,14 @@ def cmd_run(ns):
         audit = determinism_audit(prop, seed, runs=48, tier="quick")
         if not audit["ok"]:
             errors.append(f"determinism audit failed: {audit['diverged'][:5]}")
+        elif audit.get("hash_seed_dependent_runs"):
+            print(
+                "[simlab] NOTE: the output of runs "
+                f"{audit['hash_seed_dependent_runs'][:8]} depends on the string "
+                "hash seed (set / dict order of strings in the library or the "
+                "harness); runs are repeatable under the hash seed recorded in "
+                "each replay file"
+            )
 
     # ---- violations: believed only if the replay reproduces
     confirmed, unconfirmed = [], []
@@ -259,14 +267,36 @@ def determinism_audit(prop, seed, runs=64, tier="quick"):
         if len(values) != 1:
             diverged.append(key)
     complete = all(len(t) == runs for t in tables)
+    seed_dependent = []
+    if diverged and complete:
+        # Is it the string hash seed (which differs from worker to worker and
+        # is recorded in every replay file), or does a run depend on which
+        # worker executes it, i.e. on the runs before it? The same runs once
+        # more, under two worker counts and ONE hash seed for all workers:
+        # if these agree, a run is a function of (seed, run index, hash seed)
+        # -- repeatable -- and the divergence above is output of the library
+        # (or the harness) that depends on set / dict order of strings.
+        fixed = []
+        for workers in (4, 7):
+            total, errors, _, _ = runner.run_pool(
+                prop, tier, seed, budget_s=300, workers=workers,
+                max_runs=runs, keep_digests=True, hash_fixed=12345,
+                minimise_s=1,
+            )
+            if errors:
+                return {"ok": False, "diverged": errors, "runs": runs}
+            fixed.append(total["digests"])
+        if fixed[0] == fixed[1] and len(fixed[0]) == runs:
+            seed_dependent, diverged = diverged, []
     return {
         "ok": not diverged and complete,
         "runs": runs,
-        "executions_per_run": len(variants),
+        "executions_per_run": len(variants) + (2 if seed_dependent else 0),
         "variants": [
             {"workers": w, "hash_salt": s * 7919} for w, s in variants
         ],
         "diverged": diverged,
+        "hash_seed_dependent_runs": seed_dependent,
         "complete": complete,
     }
 
